@@ -193,17 +193,17 @@ func keysSeq(n int) []string {
 // ---- case descriptor (JSON-serialisable, fed back by --replay) -------------------------------------
 
 type caseDesc struct {
-	Part   string   `json:"part"`
-	Kind   string   `json:"kind"`             // subset | large
-	Mask   uint64   `json:"mask"`             // kind=subset: subset of the 12-key alphabet
-	Name   string   `json:"name,omitempty"`   // kind=large: len4 | prefsuf | seq
-	N      int      `json:"n,omitempty"`      // kind=large: number of keys
-	Assign []int    `json:"assign,omitempty"` // kv part: dictionary index per key (keys in ascending order)
+	Part   string `json:"part"`
+	Kind   string `json:"kind"`             // subset | large
+	Mask   uint64 `json:"mask"`             // kind=subset: subset of the 12-key alphabet
+	Name   string `json:"name,omitempty"`   // kind=large: len4 | prefsuf | seq
+	N      int    `json:"n,omitempty"`      // kind=large: number of keys
+	Assign []int  `json:"assign,omitempty"` // kv part: dictionary index per key (keys in ascending order)
 	// kv part: only the "holds exactly these pairs" oracle in every stage (the thorough-only 3^12 family)
 	Light bool `json:"light,omitempty"`
 	// enum part, large sets only: 0 = every representation, k>0 = only the k-th representation (work is spread over workers)
-	Section int `json:"section,omitempty"`
-	Keys   []string `json:"keys_quoted,omitempty"`
+	Section int      `json:"section,omitempty"`
+	Keys    []string `json:"keys_quoted,omitempty"`
 }
 
 func (d caseDesc) String() string {
